@@ -325,10 +325,11 @@ def covariance_errors(system, k_list, ops=None):
     """for every group element g and every k: E(gk) vs E(k), Omega(gk), S(gk) vs transformed values.
     -> dict quantity -> (max error / tolerance, worst detail, scale); plus 'skipped' count of k-points with gaps ambiguously
     close to the tabulators' degeneracy threshold.  Tolerances of DESIGN 2.3: 1e-9 (1+|E|) for energies,
-    1e-7 * (scale + 0.01) * max(1,(1e-3/gap)^2) for Berry curvature, 1e-9 * (1+scale) for spin"""
+    1e-7 * scale + max(1e-9, 1e-14 (L/gap)^2) for Berry curvature (L = longest lattice vector, gap = smallest gap above the degeneracy threshold at k), 1e-9 * (1+scale) for spin"""
     ev = KEvaluator(system)
     ops = ops if ops is not None else point_ops(system)
     recip = np.array(system.recip_lattice)
+    Lmax = max(1.0, float(np.max(np.linalg.norm(np.array(system.real_lattice), axis=1))))
     worst = {}
     scale = {}
     skipped = 0
@@ -340,7 +341,7 @@ def covariance_errors(system, k_list, ops=None):
             skipped += 1
             continue
         used += 1
-        cond = max(1.0, (1e-3 / gap) ** 2)
+        floor = max(1e-9, 1e-14 * (Lmax / min(1.0, gap)) ** 2)   # rounding noise ~1e-16 (L/gap)^2 of a curvature that vanishes by symmetry
         for ig, (Rfull, TR) in enumerate(ops):
             k2 = image_k(k, Rfull, TR, recip)
             got = ev(k2)
@@ -352,7 +353,7 @@ def covariance_errors(system, k_list, ops=None):
                     want = axial_Todd(ref[q], Rfull, TR)
                     sc = max(np.max(np.abs(want)), np.max(np.abs(v)))
                     scale[q] = max(scale.get(q, 0.0), float(sc))
-                    tol = 1e-7 * cond * (sc + 1e-2) if q == "berry" else 1e-9 * (1 + sc)
+                    tol = 1e-7 * sc + floor if q == "berry" else 1e-9 * (1 + sc)
                 err = float(np.max(np.abs(v - want)))
                 r = err / tol
                 if r > worst.get(q, (0.0, ""))[0]:
